@@ -67,6 +67,10 @@ pub struct FaultPlan {
     /// Seeded delays: each operation yields 0..=3 extra times with probability per_mille/1000.
     #[serde(default, skip_serializing_if = "Option::is_none")]
     pub delay: Option<(u64, u32)>,
+    /// Crash before the first operation with this verb whose path starts with this prefix
+    /// (used by generators that cannot know operation indexes in advance).
+    #[serde(default, skip_serializing_if = "Option::is_none")]
+    pub crash_on: Option<(String, String)>,
 }
 
 impl FaultPlan {
@@ -83,7 +87,7 @@ impl FaultPlan {
         self
     }
     pub fn is_faultless(&self) -> bool {
-        self.at.is_empty() && self.fail_each.is_none()
+        self.at.is_empty() && self.fail_each.is_none() && self.crash_on.is_none()
     }
 }
 
@@ -543,7 +547,14 @@ impl Backend for Interceptor {
             self.die(Dead::Hung);
             return std::future::pending().await;
         }
-        let (fault, delayed) = self.decide(idx);
+        let (mut fault, delayed) = self.decide(idx);
+        if fault.is_none() {
+            if let Some((verb, prefix)) = &self.plan.crash_on {
+                if store::op_verb(&op) == verb && store::op_path(&op).starts_with(prefix.as_str()) {
+                    fault = Some(Fault::CrashBefore);
+                }
+            }
+        }
         if delayed > 0 {
             self.delays.fetch_add(1, SeqCst);
             for _ in 0..delayed {
@@ -758,5 +769,157 @@ where
         delays: ic.delays.load(SeqCst),
         log_from,
         log_to: core.log_len(),
+    }
+}
+
+// ---------------------------------------------------------------------------------------
+// Several simulated invocations racing through storage, one operation at a time
+
+#[derive(Debug, Clone, PartialEq, serde::Serialize, serde::Deserialize)]
+pub enum Schedule {
+    /// The actor to release at each decision point (falls back to the lowest parked id).
+    Explicit(Vec<u32>),
+    /// Seeded choice, biased to switch between a check and the act it guards.
+    Random(u64),
+    /// `first` runs points[0] operations, the other runs points[1], `first` runs points[2] ...;
+    /// then `first` to its end, then the other.
+    Preempt { first: u32, points: Vec<u32> },
+}
+
+fn is_check_op(verb: &str, path: &str) -> bool {
+    (verb == "stat" && (path == "GC_LOCK" || path.ends_with("BANDTAIL"))) || (verb == "list" && path.is_empty())
+}
+
+fn is_act_op(verb: &str, path: &str) -> bool {
+    matches!(verb, "rm" | "rmtree")
+        || (verb == "write" && (path.ends_with("BANDHEAD") || path == "GC_LOCK" || path.ends_with("BANDTAIL")))
+        || (verb == "mkdir" && path.starts_with('b') && !path.contains('/'))
+}
+
+pub type ActorFn<T> = Box<dyn FnOnce(Transport) -> std::pin::Pin<Box<dyn Future<Output = T>>> + Send>;
+
+pub struct RaceResult<T> {
+    pub results: Vec<CallResult<T>>,
+    /// The actor released at each decision point: an `Explicit` schedule that replays the run.
+    pub trace: Vec<u32>,
+    pub preemptions: u32,
+}
+
+/// Run the actors concurrently as separate simulated processes. Exactly one of them is ever
+/// unparked; `schedule` decides which.
+pub fn run_concurrent<T: Send + 'static>(
+    core: &Arc<SimCore>,
+    actors: Vec<(CallOpts, ActorFn<T>)>,
+    schedule: &Schedule,
+) -> RaceResult<T> {
+    let n = actors.len();
+    {
+        let mut st = core.sched.state.lock().unwrap();
+        *st = SchedState::default();
+        st.enabled = true;
+    }
+    let ids: Vec<u32> = actors.iter().map(|(o, _)| o.actor).collect();
+    let mut handles = Vec::new();
+    for (mut opts, f) in actors {
+        opts.gated = true;
+        let core2 = core.clone();
+        handles.push(std::thread::spawn(move || {
+            let actor = opts.actor;
+            let r = run_call(&core2, opts, f);
+            let mut st = core2.sched.state.lock().unwrap();
+            st.finished.push(actor);
+            core2.sched.cv.notify_all();
+            r
+        }));
+    }
+    let mut trace: Vec<u32> = Vec::new();
+    let mut preemptions = 0u32;
+    let mut rng = match schedule {
+        Schedule::Random(seed) => Some(Rng::new(*seed)),
+        _ => None,
+    };
+    let mut last: Option<u32> = None;
+    let mut last_was_check = false;
+    // Preempt bookkeeping
+    let (mut seg, mut seg_left, mut seg_actor) = (0usize, 0u32, 0u32);
+    if let Schedule::Preempt { first, points } = schedule {
+        seg_actor = *first;
+        seg_left = points.first().copied().unwrap_or(u32::MAX);
+    }
+    loop {
+        let mut st = core.sched.state.lock().unwrap();
+        while st.released.is_some() || st.parked.len() + st.finished.len() < n {
+            st = core.sched.cv.wait(st).unwrap();
+        }
+        if st.finished.len() == n {
+            break;
+        }
+        let parked: Vec<u32> = st.parked.keys().copied().collect();
+        let lowest = parked[0];
+        let pick = match schedule {
+            Schedule::Explicit(list) => match list.get(trace.len()) {
+                Some(a) if parked.contains(a) => *a,
+                _ => lowest,
+            },
+            Schedule::Random(_) => {
+                let r = rng.as_mut().unwrap();
+                match last {
+                    Some(l) if parked.contains(&l) && parked.len() > 1 => {
+                        let (verb, path) = &st.parked[&l];
+                        let hot = last_was_check || is_act_op(verb, path);
+                        let switch = if hot { r.chance(3, 5) } else { r.chance(1, 8) };
+                        if switch {
+                            let others: Vec<u32> = parked.iter().copied().filter(|a| *a != l).collect();
+                            *r.pick(&others)
+                        } else {
+                            l
+                        }
+                    }
+                    _ => *r.pick(&parked),
+                }
+            }
+            Schedule::Preempt { first, points } => {
+                let other = ids.iter().copied().find(|a| a != first).unwrap_or(*first);
+                loop {
+                    if seg >= points.len() {
+                        // all segments used: first to its end, then the other
+                        break if parked.contains(first) { *first } else { lowest };
+                    }
+                    if seg_left == 0 || !parked.contains(&seg_actor) {
+                        seg += 1;
+                        seg_actor = if seg % 2 == 0 { *first } else { other };
+                        seg_left = points.get(seg).copied().unwrap_or(u32::MAX);
+                        if seg >= points.len() {
+                            continue;
+                        }
+                        if !parked.contains(&seg_actor) {
+                            // that actor is finished; give the turn to whoever is left
+                            break lowest;
+                        }
+                        continue;
+                    }
+                    seg_left -= 1;
+                    break seg_actor;
+                }
+            }
+        };
+        if let Some(l) = last {
+            if l != pick && parked.contains(&l) {
+                preemptions += 1;
+            }
+        }
+        let (verb, path) = &st.parked[&pick];
+        last_was_check = is_check_op(verb, path);
+        last = Some(pick);
+        trace.push(pick);
+        st.released = Some(pick);
+        core.sched.cv.notify_all();
+    }
+    let results: Vec<CallResult<T>> = handles.into_iter().map(|h| h.join().expect("actor thread")).collect();
+    core.sched.state.lock().unwrap().enabled = false;
+    RaceResult {
+        results,
+        trace,
+        preemptions,
     }
 }
